@@ -1,16 +1,18 @@
 #!/bin/sh
-# tools/seedcheck.sh <seed-dir-name> <Cxx> [<Cxx> ...]  [-- extra check args]
-# Applies /verif/seeded/<name>/patch.diff to /repo, runs the named checks (quick tier), restores /repo.
-# Never run while another job is using /repo.
+# tools/seedcheck.sh <seed-dir-name> <Cxx> [<Cxx> ...]
+# Runs the named checks against a scratch worktree of /repo's HEAD with /verif/seeded/<name>/patch.diff applied
+# (VERIF_REPO points the harness at that tree; /repo itself is not touched). TIER=thorough, SEED=n optional.
 N=$1; shift
 P=/verif/seeded/$N/patch.diff
 [ -f "$P" ] || { echo "no $P"; exit 2; }
-git -C /repo diff --quiet || { echo "/repo is dirty"; exit 2; }
-git -C /repo apply "$P" || exit 2
-trap 'git -C /repo checkout -- . ; find /repo -name __pycache__ -type d -prune -exec rm -rf {} + 2>/dev/null' EXIT INT TERM
+W=$(mktemp -d /tmp/seedwt.XXXXXX)/$N
+git -C /repo worktree add --detach -q "$W" HEAD || exit 2
+trap 'git -C /repo worktree remove --force "$W" 2>/dev/null; rm -rf "$(dirname "$W")"' EXIT INT TERM
+git -C "$W" apply "$P" || { echo "seed=$N patch does not apply to HEAD"; exit 2; }
 for c in "$@"; do
   T0=$(date +%s)
-  OUT=$(cd /verif && ./check "$c" --tier "${TIER:-quick}" 2>&1); RC=$?
-  echo "seed=$N check=$c rc=$RC secs=$(( $(date +%s) - T0 )) $(echo "$OUT" | grep -c '^VIOLATION') violations"
-  echo "$OUT" | grep -E '^(VIOLATION|MACHINERY|KNOWN)' | head -5
+  OUT=$(cd /verif && VERIF_REPO="$W" PYTHONPATH="$W" ./check "$c" --tier "${TIER:-quick}" --seed "${SEED:-0}" 2>&1); RC=$?
+  echo "seed=$N check=$c rc=$RC secs=$(( $(date +%s) - T0 )) violations=$(echo "$OUT" | grep -c '^VIOLATION')"
+  echo "$OUT" | grep -E '^(MACHINERY|KNOWN)' | head -3
+  echo "$OUT" | grep -A1 '^VIOLATION' | grep -v '^VIOLATION\|^--' | cut -c1-220 | head -${SHOW:-2}
 done
